@@ -185,6 +185,10 @@ pub struct MsgReadCase {
     pub cfg: MsgCfg,
     pub n: usize,
     pub sched: Sched,
+    /// a second message follows the first on the stream: every way of consuming the first must
+    /// end in the same error
+    #[serde(default)]
+    pub trailing: bool,
 }
 
 #[derive(Debug, PartialEq, Eq, Clone)]
@@ -239,15 +243,40 @@ fn run_msg_read(c: &MsgReadCase) -> Outcome {
     let payload = msg::payload(c.n, c.cfg.text);
     let seed = 9000 + c.n as u64;
     let bytes = match msg::build_vec(&c.cfg, &payload, seed) {
-        Ok(b) => Arc::new(b),
+        Ok(mut b) => {
+            if c.trailing {
+                let again = b.clone();
+                b.extend_from_slice(&again);
+            }
+            Arc::new(b)
+        }
         Err(e) => return Outcome::bad("C09:msg-read:build-error", e.to_string()),
     };
-    let want = MsgObs {
-        data: payload,
-        binary: !c.cfg.text,
-        sig_valid: vec![true; c.cfg.signers.len()],
+    let error_obs = || MsgObs { data: b"<error>".to_vec(), binary: false, sig_valid: vec![] };
+    let want = if c.trailing {
+        error_obs()
+    } else {
+        MsgObs {
+            data: payload,
+            binary: !c.cfg.text,
+            sig_valid: vec![true; c.cfg.signers.len()],
+        }
     };
     let cfg = c.cfg.clone();
+    if c.trailing {
+        return explore_reader(
+            "message-with-trailing-data",
+            bytes,
+            &c.sched,
+            &[512, 8192, 64 + 16],
+            &want,
+            |src, script| match read_message(&cfg, seed, src, c.sched.cap, c.sched.consumer, script) {
+                // the reference outcome is an error whichever way the data is asked for
+                Err(_) if !script.fault_injected() => Ok(error_obs()),
+                r => r,
+            },
+        );
+    }
     explore_reader(
         if c.cfg.armor { "message-from-armor" } else { "message-from-bytes" },
         bytes,
@@ -760,6 +789,7 @@ pub fn check(ctx: &Ctx) {
                     cfg: cfg.clone(),
                     n,
                     sched: s,
+                    trailing: false,
                 });
             }
         }
@@ -779,14 +809,31 @@ pub fn check(ctx: &Ctx) {
                     cfg: cfg.clone(),
                     n,
                     sched: s,
+                    trailing: false,
                 });
+            }
+        }
+    }
+    // a second message after the first: every consumer must end in the same error
+    for cfg in cfgs.iter().filter(|c| !c.armor && c.compression == 0).take(if quick { 6 } else { 40 }) {
+        for n in [0usize, 100, 600] {
+            for s in [
+                dev(1, 8192, Consumer::ToEnd),
+                dev(1, 8192, Consumer::Scripted),
+                dev(1, 64, Consumer::BufScripted),
+                uni(1, 8192, Consumer::Fixed(1)),
+                uni(7, 8192, Consumer::Fixed(3)),
+                uni(3, 7, Consumer::BufScripted),
+                uni(511, 8192, Consumer::BufScripted),
+            ] {
+                rc.push(MsgReadCase { cfg: cfg.clone(), n, sched: s, trailing: true });
             }
         }
     }
     ctx.run_space(
         "message_reader",
         true,
-        "Message::from_bytes/from_armor over BufReader(cap) over a scripted source -> decrypt -> decompress -> consumer -> verify, for 40 configurations (compression none/zip x plain/SEIPDv1/SEIPDv2 x signed or not x binary/text x armor) x payload lengths at the partial-body/chunk boundaries (reader-sourced = partial framing; bytes-sourced = fixed 1/2/5-octet lengths): all executions with <= 1 (thorough also 2) deviations from the default read/consumer answers including an injected source error (sticky, and transient = returned once) at every call, plus uniform 1/2/3/7/511/513-byte sources; consumer = read_to_end, fixed 1/3/8191, scripted sizes, fill_buf/consume. Oracle: same data, mode, signature verdicts; a source error surfaces as an error.",
+        "Message::from_bytes/from_armor over BufReader(cap) over a scripted source -> decrypt -> decompress -> consumer -> verify, for 40 configurations (compression none/zip x plain/SEIPDv1/SEIPDv2 x signed or not x binary/text x armor) x payload lengths at the partial-body/chunk boundaries (reader-sourced = partial framing; bytes-sourced = fixed 1/2/5-octet lengths): all executions with <= 1 (thorough also 2) deviations from the default read/consumer answers including an injected source error (sticky, and transient = returned once) at every call, plus uniform 1/2/3/7/511/513-byte sources; consumer = read_to_end, fixed 1/3/8191, scripted sizes, fill_buf/consume. Oracle: same data, mode, signature verdicts; a source error surfaces as an error. Also streams on which a second message follows the first: every way of consuming (read_to_end, read(k), scripted sizes, fill_buf/consume) ends in an error.",
         rc.into_par_iter(),
         run_msg_read,
     );
